@@ -8,6 +8,7 @@ COQ_MODULE = "Prop_C11"
 THEOREMS = ['C11_every_history', 'C11_closure_panic', 'C11_guard_panic', 'C11_catch_reraises', "C11_every_schedule_all_released", "C11_every_schedule_panic_holds_nothing"]
 CASE_MODULES = ["Pf_Hist", "Monitors"]
 CHECK_WITHOUT_PROOF = True
+SHRINK_GUARD = 0      # which of the booleans evaluated with the verdict certifies the theorem's hypotheses
 TRUSTED = common.TRUSTED_COMMON
 ASSUMPTIONS = common.ASSUME_COMMON
 RULE = 'random API histories (1-3 threads, 4-14 calls, API-call-atomic) over a random universe of single locks, poisonable wrappers and collections of every kind / container / nesting depth <= 2 sharing leaves, with random holds of other threads present from the start; panic injected with a live guard and inside closures (lent and moved key); observation = result, releases, hold table and key probe after the catch; non-trivial = a panic that propagated; distinct = scenario text'
